@@ -48,7 +48,7 @@ def run(ctx):
                 if any(strip(fa) == host.id for fa in c.fnargs):
                     rs = prov.slice(par, c.args[0], follow_closures=False)
                     adaptors = sorted({(x.path or "").rsplit("::", 1)[-1] for _, x in rs.calls} & set(NARROW))
-                    whole = rs.has_field("imports", "component::World")
+                    whole = rs.has_field("imports", "component::World") or prov.slice(par, c.args[0]).has_field("imports", "component::World")   # (through a captured `&imports` binding)
                     ctx.ob("R10.1", "semver-scan-whole-map", whole and not adaptors,
                            "the semver-compatible scan ranges over all socket imports" if whole and not adaptors else
                            "the semver-compatible scan is narrowed by %s before matching: a compatible import that is skipped (e.g. one already supplied) is neither plugged nor reported as a conflict" % (adaptors or "a different collection"),
@@ -292,6 +292,16 @@ def semver_equality(ctx, rule):
     eq = any((t.declared or "").endswith(("PartialEq::eq", "PartialEq::ne")) and
              sum(1 for _, x in prov.slice(f, t.args[0]).calls + prov.slice(f, t.args[1]).calls if x in keys) >= 2 for t in f.calls()) or \
         any(s.rv.k == "bin" and s.rv.op in ("Eq", "Ne") for s in f.stmts())
+    if not eq:
+        # the comparison may sit in a closure applied to the pair of keys (`ka.zip(kb).is_some_and(|(a, b)| a == b)`)
+        for c in f.calls():
+            for fa in c.fnargs:
+                g = db.fns.get(strip(fa))
+                if g is None or not c.args:
+                    continue
+                has_eq = any((t.declared or "").endswith(("PartialEq::eq", "PartialEq::ne")) for t in g.calls()) or any(st.rv.k == "bin" and st.rv.op in ("Eq", "Ne") for st in g.stmts())
+                if has_eq and sum(1 for _, x in prov.slice(f, c.args[0]).calls if x in keys) >= 2:
+                    eq = True
     ok = len(keys) >= 2 and both >= {1, 2} and eq
     ctx.ob(rule, "track-key-equality|are_semver_compatible", ok,
            "compatibility = equality of the track keys of both names" if ok else
